@@ -84,6 +84,7 @@ def enumerate_cases(tier):
         yield {"pair": [d1, d2]}
     yield {"zero_terms": True}
     yield {"many_coinciding": True}
+    yield {"python_ints": True}
 
 
 @st.composite
@@ -650,6 +651,21 @@ def check_random(case, ck):
                        {(r1[0][0] * k, r1[0][1] * k): numpy.multiply(a, a)}, numpy.multiply(a, a).dtype, "%s**2" % d1)
 
 
+def check_python_ints(ck):
+    """Python integers (alone, in lists, next to polynomials) are taken in like numpy.array takes them in - also
+    those between 2**63 and 2**64, which numpy stores as uint64."""
+    numpoly = ck.numpoly
+    for v in (2 ** 63 + 5, 2 ** 64 - 1, 2 ** 63 - 1, -2 ** 63, 2 ** 40):
+        for label, make, ref in (
+                ("polynomial(int)", lambda: numpoly.polynomial(v), lambda: numpy.array(v)),
+                ("polynomial([int])", lambda: numpoly.polynomial([v]), lambda: numpy.array([v])),
+                ("polynomial([[int, 1]])", lambda: numpoly.polynomial([[v, 1]]), lambda: numpy.array([[v, 1]])),
+                ("aspolynomial([int])", lambda: numpoly.aspolynomial([v]), lambda: numpy.array([v])),
+                ("sum([int, 1])", lambda: numpoly.sum([v, 0]), lambda: numpy.sum([v, 0]))):
+            want = ref()
+            ck.run(label, "python-int", make, {(0,): want}, want.dtype, "%s with %d" % (label, v))
+
+
 def check_case(case, ctx):
     ck = Checker(ctx)
     if "single" in case:
@@ -667,6 +683,10 @@ def check_case(case, ctx):
     elif "many_coinciding" in case:
         check_many_coinciding(ck)
         ctx.label("enumerated:many-coinciding-products")
+        nt = True
+    elif "python_ints" in case:
+        check_python_ints(ck)
+        ctx.label("enumerated:python-ints")
         nt = True
     else:
         check_random(case, ck)
